@@ -285,6 +285,22 @@ def r2b_precision_table(ctx):
     b = unify(L, ["?t = {...}", "?p = max(?t)", "for (sorted(?t.items()), (?k, ?v))", "?p = ?k", "?df.loc[:, 'TIME'] = ?df['TIME'].round(?p)"])
     order_ok = b is not None and all(b[f"#{i}"] < b[f"#{i + 1}"] for i in range(4))
     if not order_ok:
+        # the same selection written `next((k for k, v in sorted(t.items()) if v <= m), default)`: the default is the finest precision, max(t)
+        nx = [c for c in ast.walk(f.node) if isinstance(c, ast.Call) and U(c.func) == "next" and len(c.args) == 2 and isinstance(c.args[0], ast.GeneratorExp)]
+        tabs = [st for st in statements(f.node) if isinstance(st, ast.Assign) and isinstance(st.value, ast.Dict) and st.value.keys and all(isinstance(k, ast.Constant) and isinstance(k.value, int) for k in st.value.keys)]
+        if len(nx) == 1 and tabs:
+            keys = [k.value for k in tabs[0].value.keys]
+            tname = U(tabs[0].targets[0])
+            try:
+                dflt = eval(compile(ast.Expression(nx[0].args[1]), "<default>", "eval"), {"__builtins__": {}, "max": max, "min": min, "len": len, "sorted": sorted}, {tname: dict.fromkeys(keys, 0)})
+            except Exception:
+                dflt = None
+            if dflt is None:
+                ctx.unknown("C18.R2b", f, nx[0], f"default precision `{U(nx[0].args[1])[:50]}` cannot be evaluated on the table", construct="precision selection")
+            else:
+                ctx.check(dflt == max(keys), "C18.R2b", f, nx[0], "when no spacing fits, the finest supported precision is taken",
+                          f"when no supported spacing fits, the ages are rounded to `{U(nx[0].args[1])[:40]}` = {dflt} decimals instead of the finest documented precision ({max(keys)})", construct="precision selection")
+            return
         ctx.anchor(False, "C18.R2b", f, t, "", "selection of the rounding precision (first entry, in ascending order, whose spacing fits)", construct="precision selection")
         return
     # unique ages: rounding can make two ages of an individual equal - the duplicated (ID, TIME) rows are dropped afterwards
